@@ -59,9 +59,12 @@ def c03(tier, seed):
 
 def c04(tier, seed):
     w = n(tier, 200, 3000)
-    runs = [dict(cfg=c, traces=w, preds=C04_PREDS) for c in ("p11", "prst", "pnat", "plife0", "plifeD0", "pclose")]
+    runs = [dict(cfg=c, traces=w, preds=C04_PREDS) for c in ("p11", "prst", "pnat", "plife0", "plifeD0", "plifelite", "pclose")]
     runs[1]["scheds"] = ["fc04_failed_then_connected"]
     plan = {"runs": runs, "mc": [("plifemc", ["SelWhileConnected"], n(tier, {"MaxTicks": 2, "Steps": [2], "MaxTime": 6}, {"MaxTicks": 3, "Steps": [3], "MaxTime": 9}),
+                   ["ReleasedOnFailed", "Lifecycle"]),
+                  # a lite agent that keeps its default timeouts: disconnected timeout and checking deadline are different numbers
+                  ("plifelitemc", ["SelWhileConnected"], n(tier, {"MaxTicks": 2, "Steps": [2], "MaxTime": 8}, {"MaxTicks": 3, "Steps": [2, 3], "MaxTime": 10}),
                    ["ReleasedOnFailed", "Lifecycle"])], "assumptions": SESSION_ASSUME}
     return session.run_property("C04", tier, seed, plan)
 
